@@ -80,9 +80,10 @@ def h_f6(ctx, fa, fs, correction, via="Arc"):
     # the code takes sqrt(abs(rad / (t1 + t2))): by construction c^2 = |rad/(t1+t2)|; the radicand is non-negative because the end points fit
     ctx.claim("F.6.5.2 c^2 (t1 + t2) = |radicand| (by construction of the root)", ctx.implies(ctx.gt(t1 + t2, 0), ctx.eq(C * C * (t1 + t2), ctx.absval(rad), scale=RX * RX * RY * RY)))
     ctx.claim_generalised("F.6.5.2 the radicand is non-negative once the radii fit", [fit, nz, pos], ctx.and_(ctx.ge(rad, 0, scale=RX * RX * RY * RY), ctx.gt(t1 + t2, 0)), [X, Y, RX, RY])
-    ctx.claim_generalised("F.6.5.2 c^2 (t1 + t2) = rx^2 ry^2 - t1 - t2", [ctx.eq(C * C * (t1 + t2), ctx.absval(rad)), ctx.ge(rad, 0), ctx.gt(t1 + t2, 0)],
-                          ctx.eq(C * C * (t1 + t2), rad), [X, Y, RX, RY, C])
-    csq = ctx.eq(C * C * (t1 + t2), rad)
+    sc = RX * RX * RY * RY      # magnitude of the terms that cancel in the radicand (float evaluation of the same claims)
+    ctx.claim_generalised("F.6.5.2 c^2 (t1 + t2) = rx^2 ry^2 - t1 - t2", [ctx.eq(C * C * (t1 + t2), ctx.absval(rad), scale=sc), ctx.ge(rad, 0, scale=sc), ctx.gt(t1 + t2, 0)],
+                          ctx.eq(C * C * (t1 + t2), rad, scale=sc), [X, Y, RX, RY, C])
+    csq = ctx.eq(C * C * (t1 + t2), rad, scale=sc)
     want_neg = (fa == fs)
     ctx.claim("F.6.5.2 sign of the root: negative iff fA = fS", ctx.le(C, 0) if want_neg else ctx.ge(C, 0))
     ctx.claim("F.6.5.2 cx', cy'", ctx.and_(ctx.eq(cxp * RY, C * RX * Y), ctx.eq(cyp * RX, 0 - C * RY * X)))
